@@ -132,3 +132,48 @@ def search(limit=None):
 
 def count_cases():
     return sum(1 for _ in cases())
+
+
+# ---- whole-site scenarios: links (also those written into popover attributes) never lead to pages of unselected entities, and their text is nowhere
+SITE_CASES = {
+    "separate_module_procedure": ({"src/par.f90":
+        "module par\n  !! module doc\n  implicit none\n  interface\n    module subroutine work(n)\n      !! interface doc\n      integer, intent(in) :: n\n    end subroutine work\n"
+        "    module function twice(n) result(r)\n      !! interface doc\n      integer, intent(in) :: n\n      integer :: r\n    end function twice\n  end interface\nend module par\n"
+        "submodule (par) impl\n  !! submodule doc\ncontains\n  module subroutine work(n)\n    !! UNSELECTEDIMPL doc\n    integer, intent(in) :: n\n  end subroutine work\n"
+        "  module procedure twice\n    !! UNSELECTEDIMPL doc\n    r = 2 * n\n  end procedure twice\nend submodule impl\n"}, "", ["UNSELECTEDIMPL"]),
+    "hidden_parent_type": ({"src/shapes.f90":
+        "module shapes\n  !! module doc\n  implicit none\n  private\n  type :: base_t\n    !! base doc\n    integer :: n\n      !! component doc\n  contains\n    procedure :: show\n  end type\n"
+        "  type, public, extends(base_t) :: child_t\n    !! child doc\n  end type\ncontains\n  subroutine show(self)\n    !! UNSELECTEDSHOW doc\n    class(base_t) :: self\n  end subroutine show\n"
+        "end module shapes\n"}, "", []),       # (the inherited public binding `show` is part of child_t: its text may appear there; only the links are checked)
+    "common_block_used_in_a_hidden_procedure": ({"src/blocks.f90":
+        "module blocks\n  !! module doc\n  implicit none\n  private\n  public :: pubsub\ncontains\n  subroutine pubsub()\n    !! pub doc\n    integer :: a\n    common /blk/ a\n  end subroutine pubsub\n"
+        "  subroutine privsub()\n    !! UNSELECTEDPRIV doc\n    integer :: a\n    common /blk/ a\n  end subroutine privsub\nend module blocks\n"
+        "subroutine outside()\n  !! outside doc\n  integer :: a\n  common /blk/ a\nend subroutine outside\n"}, "proc_internals: true\n", ["UNSELECTEDPRIV"]),
+}
+
+
+def site_cases(only=None):
+    from bounded import site
+    import os
+    for name, (files, meta, forbidden) in SITE_CASES.items():
+        if only and name != only:
+            continue
+        # (incl_src off: the pages that list the raw source naturally hold every comment)
+        with site.site(files, "src_dir: ./src\noutput_dir: ./doc\nincl_src: false\n" + meta) as (pd, status):
+            out = os.path.join(pd, "doc")
+            if status != "ok" or not os.path.isdir(out):
+                return {"confirmed": True, "input": {"scenario": name, "files": files, "meta": meta}, "actual": status[:400], "expected": "FORD runs", "how": "full FORD run"}
+            problems, nl, npages = site.walk_links(out)
+            p2, _ = site.search_index_links(out)
+            leaks = []
+            for d, _, ff in os.walk(out):
+                for f in ff:
+                    if f.endswith((".html", ".json", ".js")) and not d.endswith(os.sep + "src"):
+                        text = open(os.path.join(d, f), encoding="utf-8", errors="replace").read()
+                        leaks += [f"{os.path.relpath(os.path.join(d, f), out)}: holds the text '{w}' of an entity the display options exclude" for w in forbidden if w in text]
+            bad = problems + p2 + leaks
+            if bad:
+                return {"confirmed": True, "input": {"scenario": name, "files": files, "meta": meta}, "actual": bad[:6],
+                        "expected": "every link (also those in popover attributes) leads to a written page; no text of an unselected entity anywhere",
+                        "how": f"full FORD run with the default display (public, protected), scenario '{name}': {nl} links on {npages} pages followed"}
+    return None
